@@ -81,6 +81,9 @@ func replayOne(rf *vstat.ReplayFile) string {
 	if rf.Part == "latency-irregular" {
 		return replayLatIrregular(rf)
 	}
+	if rf.Part == "latency-long" || rf.Part == "cache-latency-long" {
+		return replayLatLong(rf)
+	}
 	if rf.Part == "nested" || rf.Part == "cache-latency" {
 		return replayN(rf)
 	}
